@@ -330,9 +330,10 @@ WO_Unlinked(WW, WW2, q, r, now) ==
                 /\ (q.op # "mkdiri_unlinked" => r.out.id \notin DOMAIN WW.D)            \* "the returned write-cap is the only reference to it"
                 /\ DOMAIN WW2.D[r.out.id] = {Norm(q.kids[i].name) : i \in 1..Len(q.kids)}
 \* replace=false never replaces: 409 Conflict; replace=only-files never replaces a directory
+\* (for requests made with write authority: what a read-only directory answers first is not the subject)
 Replacing == {"put_file", "put_uri", "mkdir_named", "upload", "upload_at", "post_uri"}
 WO_Replace(WW, WW2, q, r, now) ==
-  WellFormed(q) =>
+  (WellFormed(q) /\ Writeable(WW, q)) =>
    LET s == Slot(WW, q) IN
    /\ (q.op \in Replacing /\ Rep(q) = "false" /\ s.present) =>
          IsErrorCode(r.code) /\ WW2 = WW /\ (~(q.op = "put_file" /\ s.child.type = "dir") => r.code = 409)
@@ -341,10 +342,10 @@ WO_Replace(WW, WW2, q, r, now) ==
    /\ (q.op \in {"mkdirc", "mkdirc_named", "mkdiri", "mkdiri_named"} /\ s.present) => IsErrorCode(r.code) /\ WW2 = WW
    /\ (q.op \in MoveOps) =>
         LET t == Dest(WW, q) IN
-        (s.present /\ t.present /\ ~SameSlot(s, t) /\ (Rep(q) = "false" \/ (Rep(q) = "only_files" /\ t.child.type = "dir")))
-           => r.code = 409 /\ WW2 = WW
+        (s.present /\ t.present /\ ~SameSlot(s, t) /\ DestWriteable(WW, q) /\
+           (Rep(q) = "false" \/ (Rep(q) = "only_files" /\ t.child.type = "dir"))) => r.code = 409 /\ WW2 = WW
    \* t=set_children with overwrite=false: "an attempt to replace an existing child will instead cause an error"
-   /\ (q.op = "set_children" /\ Ow(q) = "false" /\ s.ok /\ Writeable(WW, q) /\
+   /\ (q.op = "set_children" /\ Ow(q) = "false" /\ s.ok /\
          \E i \in 1..Len(q.kids) : Has(WW.D, s.d, Norm(q.kids[i].name))) => IsErrorCode(r.code) /\ WW2 = WW
 \* PUT of a file: 201 Created for a new file, 200 OK for a replaced or modified one
 WO_PutCode(WW, WW2, q, r, now) ==
@@ -449,7 +450,7 @@ WO_Attach(WW, WW2, q, r, now) ==
 \* contain a "metadata" key, the old child's metadata is preserved"
 WO_SetChildren(WW, WW2, q, r, now) ==
   (q.op = "set_children" /\ IsSuccessCode(r.code)) =>
-     LET P == Slot(WW2, q) IN
+     LET P == Slot(WW, q) IN          \* the directory the URL named when the request was made
      /\ P.ok
      /\ \A i \in 1..Len(q.kids) :
           LET n == Norm(q.kids[i].name) IN
